@@ -238,3 +238,21 @@ LEVEL_TEXT.update({
     'C19': 'Theorems over a small-step model of the read future: equality of every cancelled session with the uninterrupted one for all scripts and all cancellation schedules (induction, with the suspension invariant), plus the whole-reply invariant on the outgoing side; tied to the real tokio future by manual polling and dropping at chosen pending polls (all 2^n schedules of short scripts, random long sessions), compared with the model and with the uninterrupted real run.',
 })
 NOT_APPLICABLE.pop('C19', None)
+
+PROPS.update({
+    'C02': dict(gens=['vehicle', 'track', 'consts', 'packets'], coq_targets=['Props/C02.vo'], coqchk_modules=['Props.C02'], group='wire', extra_groups=['spec'], harness='c02', axioms_allowed=[],
+        pre=['mkdir -p work && ocaml/_build/spec/driver > work/c02_spec.txt'],
+        proved=['conforms_all = true: for all 73 packet types the layouts REGENERATED from the Rust declarations agree with the transcribed specification field by field (width hence offset, kind, integer width, spare bytes, text width, time unit, enumeration / flag set, name), tail by tail, type number by type number; every specification enumerant / flag bit exists in the implementation table under its name and no specification name carries another value',
+                'lifted to EVERY value by the generic slice theorem (induction over the layout): in any successfully encoded frame bytes 0, 1, 2 are the size byte, the type and the request id, and the i-th field occupies exactly [2 + widths before it, + its width) in its representation: little-endian integers / flags / times (byte k = digit k in base 256), one byte per listed enumerant, zero spare bytes, truncated NUL-padded text',
+                'decoding direction: a frame produced by the conforming encoder from in-domain values decodes to exactly those values (C01)',
+                'the check is not vacuous: a deviating layout (spare bytes on the wrong side of UCID) and a shifted flag table are rejected (c02_check_can_fail); run against the ORIGINAL tree it reports exactly the seven layout / table defects that were repaired (Iii, Axm, Plc x2, Pit flags, LCL extra, Uco time, Nlp padding)'],
+        modelled=WIRE_MODELLED + ['Spec/InSimV9.v is a hand transcription of InSim.txt (InSim 9) and the InSim-Relay documentation written from the transcriber\'s knowledge of the documents - they are NOT in the sandbox; entries the transcriber is not sure of are tagged Unasserted and create no obligation (IS_RST Timing; IS_RIP CTime / TTime unit; start-light indices 150 / 151); fields whose content is another property\'s subject are compared by width only (game version C16, track C14, vehicle C13, race laps / fuel C15, IS_SMALL value, IS_CIM modes, CON nibbles)',
+                                  'IS_MSO (hand-written codec) and the SMALL_ sub-type numbers are outside the layout comparison; they are covered by the reference-frame runs',
+                                  'reference frames are built from the DUMPED transcription by a table-driven encoder in the harness (not from the implementation), decoded by the real Codec, observed through the packet\'s public fields (Debug output: numbers, variant names, flag names, text, durations), and re-encoded'],
+        assumptions=['signedness of char / short / int fields is not compared (values are compared modulo 2^(8 width)); IPv4 byte order in IS_NCI / IS_IPB is not asserted',
+                     'name comparison is modulo case, underscores and the documented prefix, with explicit aliases where the implementation chose another identifier']),
+})
+LEVEL_TEXT.update({
+    'C02': 'Decidable conformance of the 73 layouts, type numbers and enum / flag tables regenerated from the source against an independent Coq transcription of the specification (vm_compute over finite data), lifted by generic theorems to every value: exact byte offsets, widths, little-endian order, zero spare bytes, enumerant values, bit positions, bytes 0-2. Tied to the real Codec by reference frames built from the dumped transcription (every enumerant, single flag bit, boundary integer, text, array size, both modes): decoded, observed through the public fields, re-encoded byte for byte; the same frames go through the wire model.',
+})
+NOT_APPLICABLE.pop('C02', None)
